@@ -371,6 +371,22 @@ func Execute(t *testing.T, spec RunSpec, known map[string]bool, keepLog bool) (r
 	return res
 }
 
+// Sleep lets virtual time pass for the calling harness task and then parks it.
+// A task that wakes up from a timer or a channel runs outside the scheduler's
+// control until it parks; several may wake at the same virtual instant, so
+// none of them may touch shared state (random sources, task creation, the
+// network) before the scheduler has released it again.
+func Sleep(d time.Duration) {
+	time.Sleep(d)
+	simsync.Yield("h:woke")
+}
+
+// Await is a channel receive followed by the same parking rule as Sleep.
+func Await(ch <-chan struct{}) {
+	<-ch
+	simsync.Yield("h:woke")
+}
+
 func sortedKeys[V any](m map[string]V) []string {
 	ks := make([]string, 0, len(m))
 	for k := range m {
